@@ -263,6 +263,7 @@ type Sent struct {
 }
 
 type FakeComm struct {
+	mu     sync.Mutex
 	me     []byte
 	Outbox []*Sent
 }
@@ -272,7 +273,9 @@ func (c *FakeComm) SendConsensusMessage(ctx context.Context, recipients []primit
 	for i, r := range recipients {
 		to[i] = append([]byte{}, r...)
 	}
+	c.mu.Lock()
 	c.Outbox = append(c.Outbox, &Sent{From: c.me, To: to, Raw: message})
+	c.mu.Unlock()
 	return nil
 }
 
